@@ -1,5 +1,7 @@
 package main
+
 import "testing"
+
 func TestCanon(t *testing.T) {
 	cases := [][2]string{
 		{"(((0|constantTimeIsZero(X25519($1.private,$0)))|constantTimeIsZero(X25519($2.private,$0)))==0)", "((constantTimeIsZero(X25519($1.private,$0))|constantTimeIsZero(X25519($2.private,$0)))==0)"},
@@ -9,14 +11,26 @@ func TestCanon(t *testing.T) {
 		{"(<WeightedDist>.minValue+<WeightedDist>.values[phi(Intn(len(<WeightedDist>.values))|<WeightedDist>.alias[Intn(len(<WeightedDist>.values))])])", "(<WeightedDist>.values[phi(Intn(len(<WeightedDist>.values))|<WeightedDist>.alias[Intn(len(<WeightedDist>.values))])]+<WeightedDist>.minValue)"},
 	}
 	for _, c := range cases {
-		if !termEq(c[0], c[1]) { t.Errorf("not equal:\n %s\n %s\n -> %s\n -> %s", c[0], c[1], canonTerm(c[0]), canonTerm(c[1])) }
+		if !termEq(c[0], c[1]) {
+			t.Errorf("not equal:\n %s\n %s\n -> %s\n -> %s", c[0], c[1], canonTerm(c[0]), canonTerm(c[1]))
+		}
 	}
-	if termEq("(a-b)", "(b-a)") { t.Error("sub") }
-	if termEq("(a|b)", "(a|c)") { t.Error("or") }
+	if termEq("(a-b)", "(b-a)") {
+		t.Error("sub")
+	}
+	if termEq("(a|b)", "(a|c)") {
+		t.Error("or")
+	}
 	t.Log(canonTerm("cat(hmac($0,\"a|b\"),(x|0))"))
 }
 func TestCanonFold(t *testing.T) {
-	if !termEq("((Sample(x)*100)*1000)", "(Sample(x)*100000)") { t.Error(canonTerm("((Sample(x)*100)*1000)"), canonTerm("(Sample(x)*100000)")) }
-	if !termEq("(($3>>0)&1)", "($3&1)") { t.Error("shift0") }
-	if termEq("(x*100)", "(x*1000)") { t.Error("neq") }
+	if !termEq("((Sample(x)*100)*1000)", "(Sample(x)*100000)") {
+		t.Error(canonTerm("((Sample(x)*100)*1000)"), canonTerm("(Sample(x)*100000)"))
+	}
+	if !termEq("(($3>>0)&1)", "($3&1)") {
+		t.Error("shift0")
+	}
+	if termEq("(x*100)", "(x*1000)") {
+		t.Error("neq")
+	}
 }
